@@ -123,6 +123,19 @@ pub async fn client_with(addr: SocketAddr, ca: &Path, cert: &Path, key: &Path, b
     Ok(c)
 }
 
+/// a library client that pings every `keep_alive_ms` (for servers started with a short idle limit)
+pub async fn client_pinging(addr: SocketAddr, c: &Certs, backoff: BackoffStrategy, keep_alive_ms: u64) -> Result<Client> {
+    let cl = selium::custom()
+        .keep_alive(keep_alive_ms)?
+        .backoff_strategy(backoff)
+        .endpoint(&addr.to_string())
+        .with_certificate_authority(c.client("ca.der"))?
+        .with_cert_and_key(c.client("localhost.der"), c.client("localhost.key.der"))?
+        .connect()
+        .await?;
+    Ok(cl)
+}
+
 pub async fn client(addr: SocketAddr, c: &Certs, backoff: BackoffStrategy) -> Result<Client> {
     client_with(addr, &c.client("ca.der"), &c.client("localhost.der"), &c.client("localhost.key.der"), backoff).await
 }
